@@ -283,6 +283,110 @@ def run_joint(case, stt):
     stt.label("same_input" if case["same_input"] else "separate_inputs")
 
 
+# -- library calls as concurrent tasks of the threaded scheduler ----------------------------------------------------------------
+
+THREAD_OPS = ["freq_shift", "time_shift", "coherent_dedispersion", "incoherent_dedispersion", "to_stokes", "to_circular", "ufunc_expr", "snippet", "stft",
+              "labels", "real_to_complex", "phase_strings"]
+
+
+def _labels_task(z, rounds):
+    """read the channel labels of z and of a channel range of it again and again; -> number of reads that differ from the first read of this
+    task... the first read is itself compared with the sequential reference by the caller"""
+    first = (np.asarray(z.channel_freqs.value).copy(), np.asarray(z[:, 1:-1].channel_freqs.value).copy())
+    bad = 0
+    for _ in range(rounds):
+        a, b = np.asarray(z.channel_freqs.value), np.asarray(z[:, 1:-1].channel_freqs.value)
+        bad += int(a.tobytes() != first[0].tobytes()) + int(b.tobytes() != first[1].tobytes())
+    return first, bad
+
+
+@st.composite
+def threads_case(draw):
+    name = draw(st.sampled_from(THREAD_OPS))
+    classes = ["RadioSignal", "BasebandSignal", "IntensitySignal"] if name == "labels" else OP_CLASSES.get(name, ["Signal", "BasebandSignal"])
+    if name in ("real_to_complex", "phase_strings"):
+        classes = ["Signal"]
+    n = draw(st.sampled_from([4096, 8192, 3001])) if name != "labels" else 4
+    spec = draw(G.signal_spec(classes=classes, nmin=n, nmax=n, nchan_max=4, max_trailing=0, dtypes=["f4", "f8", "c8", "c16"], positive_band=True,
+                              data_kinds=("noise",), sr=G.freq_q(3, 8), ratio_lo=1e-6))
+    spec["n"] = n
+    if name == "labels":
+        spec["sshape"][0] = draw(st.sampled_from([256, 1024, 4096]))
+    info = {"cls": spec["cls"], "n": spec["n"], "sshape": spec["sshape"], "dtype": str(np.dtype(G.DT[spec["dtype"]])), "start": spec["t0"] is not None,
+            "radio": spec["cls"] != "Signal", "baseband": spec["cls"] in G.BASEBAND, "positive_band": True}
+    k = draw(st.integers(4, 8))
+    calls = []
+    for i in range(k):
+        args = None if name in ("labels", "real_to_complex", "phase_strings") else C.OPS[name].args(draw, info)
+        calls.append({"args": args, "seed": draw(st.integers(0, 10**6)), "align": draw(st.sampled_from(["bottom", "center", "top"]))})
+    return {"sig": spec, "op": name, "calls": calls}
+
+
+def run_threads(case, stt):
+    """K calls of one operation on K equally shaped NumPy-backed signals (own data, alignment, arguments): first one after the other, then
+    as dask.delayed tasks of ONE graph under the threaded scheduler (8 workers), three times -- every result bit-identical to its sequential
+    one.  (Shared scratch space or other module state would make concurrent calls interfere; a sequential harness cannot see that.)"""
+    import dask
+    import pulsarbat as pb
+
+    spec, name = case["sig"], case["op"]
+    sigs = []
+    for c in case["calls"]:
+        sp = dict(spec, data={"kind": "noise", "seed": c["seed"]})
+        if "align" in sp:
+            sp["align"] = c["align"]
+        sigs.append(G.build(sp))
+
+    if name == "real_to_complex":
+        def call(z, a):
+            x = np.asarray(z.data).real.astype(np.float64 if z.data.dtype.itemsize > 8 or z.data.dtype == np.float64 else np.float32)
+            x = np.stack([x] * 4, axis=1) if x.ndim == 1 else x
+            out = [pb.utils.real_to_complex(x, axis=0) for _ in range(5)]
+            return tuple(o.tobytes() for o in out), out[0].shape, str(out[0].dtype)
+
+        def same(x, y):
+            return x == y
+    elif name == "phase_strings":
+        def call(z, a):
+            v = np.asarray(z.data).real.ravel()[:64].astype(np.float64)
+            ph = pb.Phase(np.rint(v * 1e11), v - np.rint(v))
+            return tuple(str(t) for t in ph.to_string(precision=24)), tuple(format(ph[i], ".20f") for i in range(4)), str(ph[0])
+
+        def same(x, y):
+            return x == y
+    elif name == "labels":
+        def call(z, a):
+            return _labels_task(z, 200)
+
+        def same(x, y):
+            return x[0][0].tobytes() == y[0][0].tobytes() and x[0][1].tobytes() == y[0][1].tobytes() and x[1] == 0 and y[1] == 0
+    else:
+        op = C.OPS[name]
+
+        def call(z, a):
+            r = op.run(pb, z, copy.deepcopy(a))
+            lab = None if not hasattr(r, "channel_freqs") else np.asarray(r.channel_freqs.value).tobytes()
+            return np.asarray(r.data).tobytes(), r.shape, str(r.data.dtype), lab, None if r.start_time is None else (r.start_time.jd1, r.start_time.jd2)
+
+        def same(x, y):
+            return x == y
+
+    try:
+        seq = [call(z, c["args"]) for z, c in zip(sigs, case["calls"])]
+    except Exception:
+        stt.label("skip_reference_call_raises")
+        return
+    tasks = [dask.delayed(call, pure=False)(z, c["args"]) for z, c in zip(sigs, case["calls"])]
+    for rnd in range(3):
+        with lib("%s as %d concurrent tasks (threaded scheduler)" % (name, len(tasks))):
+            outs = dask.compute(*tasks, scheduler="threads", num_workers=8)
+        for i, (o, e) in enumerate(zip(outs, seq)):
+            check(same(o, e), "{}: call {} of {} run as concurrent tasks under the threaded scheduler differs from the same call run alone (round {})",
+                  name, i, len(tasks), rnd)
+    stt.nt()
+    stt.label("op_" + name)
+
+
 SUBS = [
     Sub("catalogue", dask_case(), run_dask,
         "operation catalogue (slices, Stokes/trailing selection, time_shift +-crop, freq_shift, snippet, fast_len, concatenate time/freq, "
@@ -298,4 +402,9 @@ SUBS = [
         "call, each compared with its own NumPy-backed result (task-key collisions, shared intermediate tasks); non-trivial = arguments differ",
         quick=500, thorough=10000, pieces_quick=4),
 ]
+SUBS.append(Sub("threaded_delayed_calls", threads_case(), run_threads,
+                "4..8 calls of one operation (freq/time shift, coherent/incoherent dedispersion, Stokes/basis conversion, ufunc expression, snippet, "
+                "stft, channel labels read 200 times) on equally shaped NumPy signals of 3001..8192 samples (labels: 256..4096 channels), run as "
+                "dask.delayed tasks of one graph under the threaded scheduler with 8 workers, 3 rounds, each result bit-identical to the same call "
+                "run alone; all non-trivial", quick=60, thorough=800, pieces_quick=3, pieces_thorough=8))
 SUBS[1].in_parent = True  # the multiprocess scheduler cannot be started from a daemonic pool worker
